@@ -16,7 +16,7 @@ RULE = ("(P) the linear forms in D(p;q) of evaluate_stress_tensor / evaluate_ehr
 ASSUMPTIONS = ["a differential ring with three commuting derivations models smooth functions on R^3 (standard; used by the theorems)"]
 
 
-def one_case(run, specs, t, gamma, pts, alpha, beta):
+def one_case(run, specs, t, gamma, pts, alpha, beta, sym_flag=True):
     from gbasis.evals import stress_tensor as S
     basis = make_basis(specs)
     dc = DerivCache(run, specs, pts, t)
@@ -31,7 +31,7 @@ def one_case(run, specs, t, gamma, pts, alpha, beta):
     st = S.evaluate_stress_tensor(gamma, basis, pts, alpha=alpha, beta=beta, transform=t)
     fo = S.evaluate_ehrenfest_force(gamma, basis, pts, alpha=alpha, beta=beta, transform=t)
     he = S.evaluate_ehrenfest_hessian(gamma, basis, pts, alpha=alpha, beta=beta, transform=t)
-    hs = S.evaluate_ehrenfest_hessian(gamma, basis, pts, alpha=alpha, beta=beta, transform=t, symmetric=True)
+    hs = S.evaluate_ehrenfest_hessian(gamma, basis, pts, alpha=alpha, beta=beta, transform=t, symmetric=sym_flag)
     scale = 0.0
     for i in range(3):
         v, m = eval_form(model_form(run, "force", (alpha, beta), (i,)), dc, gamma)
@@ -85,6 +85,14 @@ def check(run):
         gamma = random_symmetric(rng, m, psd=(n % 2 == 0))
         pts = np.array([[core.snap(rng.uniform(-2, 2), 10) for _ in range(3)] for _ in range(rng.randint(1, 4 if quick else 20))])
         one_case(run, specs, t, gamma, pts, a, b)
+    # flags and parameters as numpy scalars (what comparisons / array elements produce)
+    for n, (a, b, flag) in enumerate([(np.float64(1.0), np.float64(0.5), np.bool_(True)), (0.3, np.float64(-1.0), np.array([True])[0]), (np.float64(0.5), 0, 1)]):
+        specs = random_basis(rng, 2, 2, lmax=2, exp_hi=10.0)
+        nb = sum(s.size for s in specs)
+        gamma = random_symmetric(rng, nb, psd=False)
+        pts = np.array([[core.snap(rng.uniform(-2, 2), 10) for _ in range(3)] for _ in range(3)])
+        one_case(run, specs, None, gamma, pts, a, b, sym_flag=flag)
+        run.count("symmetric flag of type " + type(flag).__name__)
     from checks.common import zero_diag_symmetric
     for n, (a, b) in enumerate([(1, 0), (0.5, 0.75), (0, -2.0), (0.3, 1.0)] if quick else params[:8]):
         specs = random_basis(rng, 1, 2, lmax=2, exp_hi=10.0)
